@@ -15,6 +15,7 @@ import (
 	"go/constant"
 	"go/token"
 	"go/types"
+	"unicode/utf8"
 
 	"golang.org/x/tools/go/ssa"
 	"strconv"
@@ -66,6 +67,15 @@ func newAMap() aMap { return aMap{m: map[string]aval{}, order: &[]string{}} }
 type acell struct {
 	v    aval
 	name string
+}
+
+// absIter: the state of a range loop over a string or a map.
+type absIter struct {
+	str   string
+	keys  []string
+	m     aMap
+	isMap bool
+	pos   int
 }
 
 // absPanic is how an interpreted panic(...) unwinds.
@@ -324,6 +334,8 @@ func (in *absInterp) get(fr *absFrame, v ssa.Value) aval {
 			c = &acell{v: in.zero(pt.Elem()), name: x.Name()}
 			if tbl, ok := constTableOf(x); ok {
 				c.v = tbl
+			} else if tbl, ok := in.constGlobalOf(x); ok {
+				c.v = tbl
 			}
 			in.globals[x] = c
 		}
@@ -527,11 +539,57 @@ func (in *absInterp) Call(fn *ssa.Function, args []aval, bind []aval) aval {
 				}
 				fr.vals[x] = v
 			case *ssa.Convert:
-				v := in.get(fr, x.X)
-				if _, ok := v.(aInt); !ok {
-					in.fail("conversion of %T", v)
+				fr.vals[x] = in.convert(x, in.get(fr, x.X))
+			case *ssa.Range:
+				switch m := in.get(fr, x.X).(type) {
+				case aStr:
+					fr.vals[x] = &absIter{str: string(m)}
+				case aMap:
+					fr.vals[x] = &absIter{keys: append([]string{}, *m.order...), m: m, isMap: true}
+				case aNil:
+					fr.vals[x] = &absIter{isMap: true}
+				default:
+					in.fail("range over %T", m)
 				}
-				fr.vals[x] = v
+			case *ssa.Next:
+				it, ok := in.get(fr, x.Iter).(*absIter)
+				if !ok {
+					in.fail("next of %T", in.get(fr, x.Iter))
+				}
+				if !it.isMap {
+					if it.pos >= len(it.str) {
+						fr.vals[x] = aTuple{aBool(false), aInt(0), aInt(0)}
+					} else {
+						r, size := utf8.DecodeRuneInString(it.str[it.pos:])
+						fr.vals[x] = aTuple{aBool(true), aInt(it.pos), aInt(r)}
+						it.pos += size
+					}
+					break
+				}
+				for it.pos < len(it.keys) {
+					if _, still := it.m.m[it.keys[it.pos]]; still {
+						break
+					}
+					it.pos++
+				}
+				if it.pos >= len(it.keys) {
+					mt, _ := x.Iter.(*ssa.Range).X.Type().Underlying().(*types.Map)
+					var zk, zv aval = aNil{}, aNil{}
+					if mt != nil {
+						zk, zv = in.zero(mt.Key()), in.zero(mt.Elem())
+					}
+					fr.vals[x] = aTuple{aBool(false), zk, zv}
+				} else {
+					k := it.keys[it.pos]
+					it.pos++
+					var kv aval = aStr(k)
+					if strings.HasPrefix(k, "\x00i") {
+						var n int64
+						fmt.Sscanf(k[2:], "%d", &n)
+						kv = aInt(n)
+					}
+					fr.vals[x] = aTuple{aBool(true), kv, deepCopy(it.m.m[k])}
+				}
 			case *ssa.TypeAssert:
 				fr.vals[x] = in.typeAssert(x, in.get(fr, x.X))
 			case *ssa.Extract:
@@ -821,6 +879,45 @@ func (in *absInterp) call(fr *absFrame, c *ssa.CallCommon) aval {
 			cell := &acell{v: aArr{e: elems}, name: "append"}
 			return aSlice{arr: aRef{root: cell}, n: len(elems)}
 		}
+		if bi.Name() == "cap" {
+			switch a := args[0].(type) {
+			case aSlice:
+				arr, _ := in.load(a.arr).(aArr)
+				return aInt(len(arr.e) - a.off)
+			case aNil:
+				return aInt(0)
+			}
+		}
+		if bi.Name() == "copy" {
+			dst, ok := args[0].(aSlice)
+			if !ok {
+				if _, isNil := args[0].(aNil); isNil {
+					return aInt(0)
+				}
+				in.fail("copy into %T", args[0])
+			}
+			var src []aval
+			switch a := args[1].(type) {
+			case aSlice:
+				arr, _ := in.load(a.arr).(aArr)
+				src = arr.e[a.off : a.off+a.n]
+			case aStr:
+				for i := 0; i < len(a); i++ {
+					src = append(src, aInt(a[i]))
+				}
+			case aNil:
+			default:
+				in.fail("copy from %T", args[1])
+			}
+			n := dst.n
+			if len(src) < n {
+				n = len(src)
+			}
+			for i := 0; i < n; i++ {
+				in.store(aRef{root: dst.arr.root, path: fmt.Sprintf("%s/%d", dst.arr.path, dst.off+i)}, src[i])
+			}
+			return aInt(n)
+		}
 		if bi.Name() == "min" || bi.Name() == "max" {
 			best, ok := args[0].(aInt)
 			if ok {
@@ -959,6 +1056,31 @@ func stdPure(callee *ssa.Function, args []aval) (aval, bool) {
 					return aInt(strings.Count(a, b)), true
 				case "LastIndex":
 					return aInt(strings.LastIndex(a, b)), true
+				}
+			}
+		}
+	case "strconv.Quote":
+		if a, ok := str(0); ok {
+			return aStr(strconv.Quote(a)), true
+		}
+	case "strconv.ParseInt", "strconv.ParseUint":
+		if a, ok := str(0); ok {
+			if base, ok := num(1); ok {
+				if bits, ok := num(2); ok {
+					var n int64
+					var err error
+					if callee.Name() == "ParseInt" {
+						n, err = strconv.ParseInt(a, int(base), int(bits))
+					} else {
+						var u uint64
+						u, err = strconv.ParseUint(a, int(base), int(bits))
+						n = int64(u)
+					}
+					var ev aval = aNil{}
+					if err != nil {
+						ev = aIface{dyn: callee.Signature.Results().At(1).Type(), v: aAtom{"strconv error"}}
+					}
+					return aTuple{aInt(n), ev}, true
 				}
 			}
 		}
@@ -1139,4 +1261,227 @@ func constTableOf(g *ssa.Global) (aval, bool) {
 		out.m[string(key)] = val
 	}
 	return out, true
+}
+
+// convert models a Go conversion on the abstract values the evaluator knows: integers (with the wrap-around of the sized
+// types), integer to string (a code point), and strings to and from byte / rune slices.
+func (in *absInterp) convert(x *ssa.Convert, v aval) aval {
+	to := x.Type().Underlying()
+	switch src := v.(type) {
+	case aInt:
+		if bt, ok := to.(*types.Basic); ok {
+			switch {
+			case bt.Info()&types.IsString != 0:
+				return aStr(string(rune(src)))
+			case bt.Info()&types.IsInteger != 0:
+				n := int64(src)
+				switch bt.Kind() {
+				case types.Int8:
+					n = int64(int8(n))
+				case types.Int16:
+					n = int64(int16(n))
+				case types.Int32:
+					n = int64(int32(n))
+				case types.Uint8:
+					n = int64(uint8(n))
+				case types.Uint16:
+					n = int64(uint16(n))
+				case types.Uint32:
+					n = int64(uint32(n))
+				}
+				return aInt(n)
+			}
+		}
+	case aStr:
+		if sl, ok := to.(*types.Slice); ok {
+			if bt, ok := sl.Elem().Underlying().(*types.Basic); ok {
+				var elems []aval
+				switch bt.Kind() {
+				case types.Uint8:
+					for i := 0; i < len(src); i++ {
+						elems = append(elems, aInt(src[i]))
+					}
+				case types.Int32:
+					for _, r := range string(src) {
+						elems = append(elems, aInt(r))
+					}
+				default:
+					in.fail("conversion of a string to %s", x.Type())
+				}
+				return aSlice{arr: aRef{root: &acell{v: aArr{e: elems}, name: "conv"}}, n: len(elems)}
+			}
+		}
+		if bt, ok := to.(*types.Basic); ok && bt.Info()&types.IsString != 0 {
+			return src
+		}
+	case aSlice:
+		if bt, ok := to.(*types.Basic); ok && bt.Info()&types.IsString != 0 {
+			arr, _ := in.load(src.arr).(aArr)
+			et, _ := x.X.Type().Underlying().(*types.Slice)
+			isBytes := false
+			if et != nil {
+				if eb, ok := et.Elem().Underlying().(*types.Basic); ok && eb.Kind() == types.Uint8 {
+					isBytes = true
+				}
+			}
+			var bs []byte
+			var rs []rune
+			for i := 0; i < src.n; i++ {
+				n, ok := arr.e[src.off+i].(aInt)
+				if !ok {
+					in.fail("conversion of a slice of %T to string", arr.e[src.off+i])
+				}
+				if isBytes {
+					bs = append(bs, byte(n))
+				} else {
+					rs = append(rs, rune(n))
+				}
+			}
+			if isBytes {
+				return aStr(string(bs))
+			}
+			return aStr(string(rs))
+		}
+	case aNil:
+		if bt, ok := to.(*types.Basic); ok && bt.Info()&types.IsString != 0 {
+			return aStr("")
+		}
+	}
+	in.fail("conversion of %T to %s", v, x.Type())
+	return nil
+}
+
+// constGlobalOf: g is a package-level array, slice or struct of constants (strings, integers, booleans, functions, nested
+// arrays of those) that the package initialiser fills with constant stores and nothing else writes: its contents.
+func (in *absInterp) constGlobalOf(g *ssa.Global) (aval, bool) {
+	if g.Pkg == nil {
+		return nil, false
+	}
+	pt, ok := g.Type().Underlying().(*types.Pointer)
+	if !ok {
+		return nil, false
+	}
+	rooted := func(a ssa.Value) ([]int, bool) { // path of constant indices from g
+		var path []int
+		for {
+			switch x := a.(type) {
+			case *ssa.Global:
+				if x != g {
+					return nil, false
+				}
+				for i, j := 0, len(path)-1; i < j; i, j = i+1, j-1 {
+					path[i], path[j] = path[j], path[i]
+				}
+				return path, true
+			case *ssa.IndexAddr:
+				k, ok := constInt(x.Index)
+				if !ok {
+					return nil, false
+				}
+				path = append(path, int(k))
+				a = x.X
+			case *ssa.FieldAddr:
+				path = append(path, x.Field)
+				a = x.X
+			default:
+				return nil, false
+			}
+		}
+	}
+	// nothing outside the initialiser writes through g
+	for _, mem := range g.Pkg.Members {
+		fn, ok := mem.(*ssa.Function)
+		if !ok {
+			continue
+		}
+		for _, f := range append([]*ssa.Function{fn}, fn.AnonFuncs...) {
+			if f.Name() == "init" && f.Synthetic != "" {
+				continue
+			}
+			for _, b := range f.Blocks {
+				for _, ins := range b.Instrs {
+					if st, ok := ins.(*ssa.Store); ok {
+						if _, r := rooted(st.Addr); r {
+							return nil, false
+						}
+					}
+				}
+			}
+		}
+	}
+	init := g.Pkg.Func("init")
+	if init == nil {
+		return nil, false
+	}
+	var constOf func(v ssa.Value, d int) (aval, bool)
+	constOf = func(v ssa.Value, d int) (aval, bool) {
+		if d > 4 {
+			return nil, false
+		}
+		switch x := v.(type) {
+		case *ssa.Const:
+			return in.constVal(x), true
+		case *ssa.Function:
+			return aFunc{fn: x}, true
+		case *ssa.Slice:
+			al, ok := x.X.(*ssa.Alloc)
+			if !ok || x.Low != nil || x.High != nil {
+				return nil, false
+			}
+			at, ok := al.Type().Underlying().(*types.Pointer).Elem().Underlying().(*types.Array)
+			if !ok {
+				return nil, false
+			}
+			arr := in.zero(at).(aArr)
+			for _, ref := range *al.Referrers() {
+				ia, ok := ref.(*ssa.IndexAddr)
+				if !ok {
+					continue
+				}
+				k, isK := constInt(ia.Index)
+				if !isK {
+					return nil, false
+				}
+				for _, r2 := range *ia.Referrers() {
+					if st, ok := r2.(*ssa.Store); ok && st.Addr == ssa.Value(ia) {
+						ev, ok := constOf(st.Val, d+1)
+						if !ok {
+							return nil, false
+						}
+						arr.e[k] = ev
+					}
+				}
+			}
+			return aSlice{arr: aRef{root: &acell{v: arr, name: g.Name()}}, n: len(arr.e)}, true
+		}
+		return nil, false
+	}
+	cell := &acell{v: in.zero(pt.Elem()), name: g.Name()}
+	wrote := false
+	for _, b := range init.Blocks {
+		for _, ins := range b.Instrs {
+			st, ok := ins.(*ssa.Store)
+			if !ok {
+				continue
+			}
+			path, r := rooted(st.Addr)
+			if !r {
+				continue
+			}
+			val, ok := constOf(st.Val, 0)
+			if !ok {
+				return nil, false
+			}
+			ps := ""
+			for _, k := range path {
+				ps += fmt.Sprintf("/%d", k)
+			}
+			in.store(aRef{root: cell, path: ps}, val)
+			wrote = true
+		}
+	}
+	if !wrote {
+		return nil, false
+	}
+	return cell.v, true
 }
